@@ -504,7 +504,7 @@ func RunRegistry(behs [][]Step, tr *Trace, env Env, sum *Summary) {
 							l.Close()
 						}
 					}
-					if pan, to := guarded(func() { must(w.Restart()) }, 40*time.Second); pan != "" || to {
+					if pan, to := guarded(func() { must(w.Restart()) }, 150*time.Second); pan != "" || to {
 						if strings.Contains(pan, "harness-error") {
 							panic(pan)
 						}
